@@ -28,7 +28,10 @@ Definition out_preimage (m : list (str * fsig)) : str := hw_encode (out_words m)
 Definition kw_shell : word := kw0.
 Definition kw_inp : word := kw1.
 Definition kw_env : word := kw2.
-Definition kw_ovr : word := kw3.
+(* the word that opens the override section may depend on whether there are overrides *)
+Definition kw_ovr_of (ne : bool) : word := kw3_of ne.
+Definition kw_ovrN : word := kw_ovr_of true.    (* with overrides *)
+Definition kw_ovrE : word := kw_ovr_of false.   (* without overrides *)
 
 (* The shape the decoder is written for; proofs/HashProofs.v shows inp_words = inp_words_spec. *)
 Definition file_words_spec (path : str) (fs : fsig) : list word :=
@@ -44,7 +47,7 @@ Definition inp_words_spec (c : cfg) : list word :=
   [WStr (cfg_label c); kw_shell; WBytes [N.b2n (cfg_shell c)]; kw_inp]
   ++ entries_words (sort_keys (cfg_inps c))
   ++ [kw_env] ++ env_words (sort_keys (cfg_envs c))
-  ++ [kw_ovr] ++ ovr_words (sort_keys (cfg_ovrs c)).
+  ++ [kw_ovr_of (nonempty (cfg_ovrs c))] ++ ovr_words (sort_keys (cfg_ovrs c)).
 
 (* canonical form of a configuration: maps in key order *)
 Definition canon (c : cfg) : cfg :=
@@ -100,10 +103,10 @@ Definition dig_ok (md : dmode) (fs : fsig) : bool :=
 Definition digests_ok (md : dmode) (m : list (str * fsig)) : bool :=
   forallb (fun e => dig_ok md (snd e)) m.
 
-(* D2b: no tracked environment variable is named like the word that opens the override
+(* D2b: no tracked environment variable is named like the word that opens a non-empty override
    section. Trivially true when that word is not a str word. *)
 Definition env_names_ok (c : cfg) : bool :=
-  forallb (fun kv => negb (word_eqb (WStr (fst kv)) kw_ovr)) (cfg_envs c).
+  forallb (fun kv => negb (word_eqb (WStr (fst kv)) kw_ovrN)) (cfg_envs c).
 
 Definition kw_env_is_str : bool := match kw_env with WStr _ => true | _ => false end.
 
@@ -202,32 +205,6 @@ Fixpoint dec_entries (md : dmode) (fuel : nat) (r : str) : option (list (str * f
       else Some ([], r)
   end.
 
-Fixpoint dec_envs (fuel : nat) (r : str) : option (list (str * option str) * str) :=
-  match fuel with
-  | O => None
-  | S f =>
-      match r with
-      | 0 :: 1 :: r0 =>
-          let (n, r1) := read_str r0 in
-          if word_eqb (WStr n) kw_ovr then Some ([], r)
-          else match r1 with
-               | 0 :: 1 :: r2 =>
-                   let (v, r3) := read_str r2 in
-                   match dec_envs f r3 with
-                   | Some (l, r') => Some ((n, Some v) :: l, r')
-                   | None => None
-                   end
-               | 0 :: 2 :: r2 =>
-                   match dec_envs f r2 with
-                   | Some (l, r') => Some ((n, None) :: l, r')
-                   | None => None
-                   end
-               | _ => None
-               end
-      | _ => Some ([], r)
-      end
-  end.
-
 Fixpoint dec_ovrs (fuel : nat) (r : str) : option (list (str * str)) :=
   match fuel with
   | O => None
@@ -246,6 +223,53 @@ Fixpoint dec_ovrs (fuel : nat) (r : str) : option (list (str * str)) :=
           | _ => None
           end
       | _ => None
+      end
+  end.
+
+Definition is_nil {A : Type} (l : list A) : bool := match l with [] => true | _ :: _ => false end.
+
+(* the override section, to the end of the input *)
+Definition dec_ovr_section (r : str) : option (list (str * option str) * list (str * str)) :=
+  match dec_ovrs (S (length r)) r with
+  | Some o => Some ([], o)
+  | None => None
+  end.
+
+(* Environment variables, then the override keyword, then the overrides.  At a position where a
+   variable name may start:
+   - a str word equal to the keyword of a non-empty override section ends the variables
+     (this is where a variable named like that keyword would be misread: env_names_ok);
+   - a str word equal to the keyword of an empty override section, AT THE END of the input, is
+     that keyword (a variable name is always followed by its value word);
+   - a word that is not a str word must be the (bytes) keyword. *)
+Fixpoint dec_envs (fuel : nat) (r : str) : option (list (str * option str) * list (str * str)) :=
+  match fuel with
+  | O => None
+  | S f =>
+      match r with
+      | 0 :: 1 :: r0 =>
+          let (n, r1) := read_str r0 in
+          if word_eqb (WStr n) kw_ovrN then dec_ovr_section r1
+          else if word_eqb (WStr n) kw_ovrE && is_nil r1 then Some ([], [])
+          else match r1 with
+               | 0 :: 1 :: r2 =>
+                   let (v, r3) := read_str r2 in
+                   match dec_envs f r3 with
+                   | Some (l, o) => Some ((n, Some v) :: l, o)
+                   | None => None
+                   end
+               | 0 :: 2 :: r2 =>
+                   match dec_envs f r2 with
+                   | Some (l, o) => Some ((n, None) :: l, o)
+                   | None => None
+                   end
+               | _ => None
+               end
+      | _ =>
+          match strip (enc_word kw_ovrN) r with
+          | Some r' => dec_ovr_section r'
+          | None => if str_eqb r (enc_word kw_ovrE) then Some ([], []) else None
+          end
       end
   end.
 
@@ -277,15 +301,7 @@ Definition decode_inp (md : dmode) (r : str) : option cfg :=
                       match strip (enc_word kw_env) r5 with
                       | Some r6 =>
                           match dec_envs fuel r6 with
-                          | Some (envs, r7) =>
-                              match strip (enc_word kw_ovr) r7 with
-                              | Some r8 =>
-                                  match dec_ovrs fuel r8 with
-                                  | Some ovrs => Some (mk_cfg lbl sh es envs ovrs)
-                                  | None => None
-                                  end
-                              | None => None
-                              end
+                          | Some (envs, ovrs) => Some (mk_cfg lbl sh es envs ovrs)
                           | None => None
                           end
                       | None => None
@@ -334,4 +350,4 @@ Definition cfg_equiv (c1 c2 : cfg) : Prop :=
   /\ Permutation (cfg_envs c1) (cfg_envs c2)
   /\ Permutation (cfg_ovrs c1) (cfg_ovrs c2).
 
-Definition kw_ovr_is_str : bool := match kw_ovr with WStr _ => true | _ => false end.
+Definition kw_ovr_is_str : bool := match kw_ovrN with WStr _ => true | _ => false end.
